@@ -97,7 +97,65 @@ def make_two(kind, rate, rng, dist):
     raise ValueError(kind)
 
 
+def system_case(case):
+    """Devices inside a running system: real sequential runs of built ICT-controlled systems whose lines, sensors and intelligent
+    switches fail by themselves.  Observed from outside, once per increment: a device (or line) that stays under repair loses exactly
+    one step of remaining time per increment, never more, and is never negative."""
+    import contextlib, io
+    from relsad.simulation import Simulation
+    from relsad.Time import Time, TimeStamp, TimeUnit
+    from relsad.StatDist import StatDist, StatDistType, UniformParameters
+    from . import net, acct
+    viols = []
+    n = case["n_inc"]; dt = case["dt"]
+    ps = net.build(dict(case["spec"], exact=False, nprof=n))
+    for l in ps.lines:
+        l.fail_rate_per_year = case["line_rate"]
+        l.repair_time_dist = StatDist(StatDistType.UNIFORM_FLOAT, UniformParameters(min_val=2.0, max_val=5.0))
+    devs = list(ps.sensors) + list(ps.intelligent_switches)
+    seen = set()
+    devs = [d for d in devs if not (id(d) in seen or seen.add(id(d)))]
+    for d in devs:
+        d.fail_rate_per_year = case["dev_rate"]
+        d.manual_repair_time = Time(case["dev_rep"], TimeUnit.HOUR)
+        if type(d).__name__ == "Sensor":
+            d.p_fail_repair_new_signal = 1.0; d.p_fail_repair_reboot = 1.0        # retry and reboot fail: manual repair
+    sim = Simulation(ps, random_seed=case["seed"])
+    prev = {}
+    stat = {"rep": 0, "k": 0}
+    line_names = {l.name for l in ps.lines}
+    def snap():
+        out = {}
+        for d in devs:
+            out[d.name] = (d.state.name, d.remaining_repair_time.get_hours())
+        for l in ps.lines:
+            out[l.name] = ("REPAIR" if l.failed else "OK", l.remaining_outage_time.get_hours())
+        return out
+    def close():
+        cur = snap()
+        for name, (st, rem) in cur.items():
+            if rem < -1e-12:
+                viols.append(("system.rem-negative", f"increment {stat['k']}: remaining repair time of {name} is {rem} h"))
+            if name in prev and prev[name][0] == "REPAIR" and st == "REPAIR":
+                stat["rep"] += 1
+                drop = prev[name][1] - rem
+                # (a line's remaining time may be *raised* meanwhile: the controller adds the manual sectioning time of its section)
+                if (drop > dt + 1e-9) if name in line_names else (abs(drop - dt) > 1e-9):
+                    viols.append(("system.countdown", f"increment {stat['k']}: {name} stays under repair, its remaining time went from {prev[name][1]} h to {rem} h with a step of {dt} h"))
+        prev.clear(); prev.update(cur)
+        stat["k"] += 1
+    def cb(ps, prev_time, curr_time):
+        close()
+    with contextlib.redirect_stdout(io.StringIO()):
+        sim.run_sequential(start_time=TimeStamp(), stop_time=TimeStamp(hour=int(n * dt) % 24, day=int(n * dt) // 24), time_step=Time(dt, TimeUnit.HOUR),
+                           time_unit=TimeUnit.HOUR, callback=cb, save_dir=acct.tmpdir("c13_sys"), save_flag=False)
+    close()
+    return dict(ops=[], impl=[], viols=viols[:3], nontrivial=("system", min(stat["rep"] // 5, 8), bool(case["spec"].get("mg"))) if stat["rep"] else None, tag="system")
+
+
 def handler(case):
+    if case["kind"] == "system":
+        return system_case(case)
     with c17._Exact():
         return _handler(case)
 
@@ -389,6 +447,18 @@ def gen(rng, n):
         dt = rand_dt(rng)
         steps = [{"dt": dt, "u": [str(rng.choice([F(0), rand_frac(rng, 0, 1), F(999, 1000)])) for _ in range(4)]} for _ in range(rng.randint(4, 40))]
         cases.append({"kind": "ctrl", "P": P, "steps": steps, "manual_unit": [3, 2, 1, 4][len(cases) % 4]})
+    for q in range(max(4, n // 20)):
+        # devices inside running systems (ICT-based control, sensors and intelligent switches everywhere, a microgrid whose connecting
+        # line is listed with both networks in every other case)
+        from . import net
+        spec = net.rand_feeder_spec(rng, max_lines=4, ctrl="main", allow_tie=False, allow_mg=True)
+        while not spec.get("mg"):
+            spec = net.rand_feeder_spec(rng, max_lines=4, ctrl="main", allow_tie=False, allow_mg=True)
+        spec["mg"]["discon"] = True; spec["mg"]["n"] = rng.choice([2, 3])
+        if q % 2 == 0:
+            spec["mg"]["listed_twice"] = True
+        cases.append({"kind": "system", "spec": spec, "n_inc": 60, "dt": rng.choice([1.0, 0.5]), "seed": rng.randint(0, 10 ** 6),
+                      "line_rate": rng.choice([1500.0, 3000.0]), "dev_rate": rng.choice([3000.0, 6000.0]), "dev_rep": rng.choice([3.0, 4.0])})
     return cases
 
 
@@ -466,6 +536,7 @@ def run(res):
     n = 80 if res.tier == "quick" else 1200
     res.rule = ("histories of update/query calls on real Bus(trafo)/Line/ICTLine/ICTNode/Sensor(1-3, some sharing the default manual repair time)/"
                 "IntelligentSwitch/MainController objects with replayed draws, steps in s/min/h/day, rates 0..1e6; "
+                "system: 60-increment sequential runs of built ICT-controlled systems (microgrid, its connecting line listed with both networks in every other case) whose lines, sensors and intelligent switches fail by themselves: whatever stays under repair loses exactly one step of remaining time per increment; "
                 "non-trivial/distinct = distinct set of (pre-state, post-state, draws) transitions per history")
     run_cases(res, gen(rng, n), handler)
     statistics(res)
